@@ -1,2 +1,930 @@
-"""jax_model (library models)"""
+"""jax / jax.numpy / jax.random / jax.nn / optax / chex models over Tensor.
+
+ASSUMED contracts.  jit / vmap wrappers: jit is the identity on semantics
+(DESIGN 4.2); vmap slices its mapped arguments along in_axes, runs the real
+body symbolically for a generic index and re-wraps the result.
+"""
+from __future__ import annotations
+
+from fractions import Fraction
+
+import z3
+
+from .. import core as C
+from .. import tensor as T
+from ..core import BOOL, INT, KEY, REAL, ROW, VAL, Builtin, Closure, NDArr, Obj, Opaque, Partial, PyRaise, Sym, Unsupported
+from ..tensor import Tensor
 from . import LIB
+from .np_model import _as_t
+
+JNP = "jax.numpy."
+
+
+def both(name, doc=""):
+    """register under numpy.* and jax.numpy.*"""
+    def deco(f):
+        LIB.fn("numpy." + name, doc)(f)
+        LIB.fn(JNP + name, doc)(f)
+        return f
+    return deco
+
+
+def tt(x):
+    x = _as_t(x)
+    if isinstance(x, (list, tuple)):
+        return T.from_list(list(x))
+    return x
+
+
+# ---------------------------------------------------------------- creation
+@LIB.fn(JNP + "asarray", doc="value-preserving conversion")
+def jnp_asarray(E, v, dtype=None, **kw):
+    return tt(v)
+
+
+LIB.funcs[JNP + "array"] = LIB.funcs[JNP + "asarray"]
+LIB.funcs[JNP + "copy"] = LIB.funcs[JNP + "asarray"]
+LIB.funcs["numpy.copy"] = LIB.funcs[JNP + "asarray"]
+for _n in ("float32", "float64", "int32", "int64", "bool_", "uint8", "float16"):
+    LIB.const(JNP + _n, Opaque("dtype", _n))
+LIB.const(JNP + "newaxis", None)
+LIB.const(JNP + "inf", Opaque("inf"))
+LIB.const(JNP + "ndarray", C.LibNS("jax.numpy.ndarray"))
+PI = z3.Real("pi")
+LIB.const(JNP + "pi", Sym(PI))
+LIB.const("numpy.pi", Sym(PI))
+LIB.const("math.pi", Sym(PI))
+
+
+def _shape(shape):
+    if isinstance(shape, (tuple, list)):
+        return tuple(shape)
+    return (shape,)
+
+
+@both("ones")
+def jnp_ones(E, shape, dtype=None):
+    return T.full(_shape(shape), Fraction(1), REAL)
+
+
+@LIB.fn(JNP + "zeros")
+def jnp_zeros(E, shape, dtype=None):
+    return T.full(_shape(shape), Fraction(0), REAL)
+
+
+@both("zeros_like")
+def jnp_zeros_like(E, a, dtype=None):
+    a = tt(a)
+    if not isinstance(a, Tensor):
+        return 0
+    return T.full(a.shape, Fraction(0) if a.sort == REAL else 0, a.sort if a.sort != BOOL else INT)
+
+
+@both("ones_like")
+def jnp_ones_like(E, a, dtype=None):
+    a = tt(a)
+    if not isinstance(a, Tensor):
+        return 1
+    return T.full(a.shape, Fraction(1) if a.sort == REAL else 1, a.sort if a.sort != BOOL else INT)
+
+
+@both("full")
+def jnp_full(E, shape, v, dtype=None):
+    return T.full(_shape(shape), v)
+
+
+@LIB.fn(JNP + "arange")
+def jnp_arange(E, *a, **kw):
+    return LIB.funcs["numpy.arange"].fn(E, *a, **kw)
+
+
+@both("linspace", doc="linspace(a,b,n)[i] = a + i*(b-a)/(n-1); n==1 -> [a]")
+def jnp_linspace(E, start, stop, num=50, **kw):
+    n = num
+    if isinstance(n, Fraction):
+        raise PyRaise("TypeError", "num must be an integer")
+
+    def fn(i):
+        den = C.binop("-", n, 1)
+        step = C.binop("/", C.binop("-", stop, start), C.ite(C.compare("==", den, 0), 1, den))
+        return C.binop("+", start, C.binop("*", i, step))
+
+    return Tensor((n,), fn, REAL, C.gdeps_of(start, stop))
+
+
+@both("eye")
+def jnp_eye(E, n, **kw):
+    return Tensor((n, n), lambda i, j: C.ite(C.compare("==", i, j), Fraction(1), Fraction(0)), REAL)
+
+
+# ------------------------------------------------------------- elementwise
+def _ew(name, f):
+    @both(name)
+    def g(E, *a, **kw):
+        return f(*[tt(x) for x in a])
+    return g
+
+
+_ew("minimum", T.tmin)
+_ew("maximum", T.tmax)
+_ew("abs", T.tabs)
+_ew("absolute", T.tabs)
+_ew("where", T.where)
+_ew("add", lambda a, b: C.binop("+", a, b))
+_ew("subtract", lambda a, b: C.binop("-", a, b))
+_ew("multiply", lambda a, b: C.binop("*", a, b))
+_ew("divide", lambda a, b: C.binop("/", a, b))
+_ew("square", lambda a: C.binop("*", a, a))
+_ew("power", lambda a, b: C.binop("**", a, b))
+_ew("negative", lambda a: C.unop("-", a))
+_ew("logical_and", lambda a, b: T.elementwise(lambda x, y: C.band(x, y), a, b, sort=BOOL))
+_ew("logical_or", lambda a, b: T.elementwise(lambda x, y: C.bor(x, y), a, b, sort=BOOL))
+_ew("logical_not", lambda a: T.elementwise(lambda x: C.bnot(x), a, sort=BOOL))
+for _f in ("exp", "log", "sqrt", "tanh", "sign", "cos", "sin", "arccos", "log1p", "arctan2", "floor"):
+    if _f in ("arctan2",):
+        continue
+    _ew(_f, (lambda nm: (lambda a: T.tfn(nm, a)))(_f))
+
+
+@both("clip", doc="clip(x, lo, hi) = minimum(maximum(x, lo), hi)")
+def jnp_clip(E, x, a_min=None, a_max=None, min=None, max=None, **kw):
+    lo = a_min if a_min is not None else min
+    hi = a_max if a_max is not None else max
+    return T.clip(tt(x), None if lo is None else tt(lo), None if hi is None else tt(hi))
+
+
+@both("isfinite")
+def jnp_isfinite(E, x):
+    x = tt(x)
+    return T.elementwise(lambda v: True, x, sort=BOOL) if isinstance(x, Tensor) else True
+
+
+@both("isnan")
+def jnp_isnan(E, x):
+    x = tt(x)
+    return T.elementwise(lambda v: False, x, sort=BOOL) if isinstance(x, Tensor) else False
+
+
+# -------------------------------------------------------------- reductions
+def _red(name, kind):
+    @both(name)
+    def g(E, a, axis=None, keepdims=False, **kw):
+        a = tt(a)
+        if not isinstance(a, Tensor):
+            return a
+        if kind == "mean":
+            return T.mean(a, axis)
+        return T.reduce(a, kind, axis, keepdims)
+    return g
+
+
+_red("sum", "sum")
+_red("mean", "mean")
+_red("max", "max")
+_red("min", "min")
+_red("amax", "max")
+_red("amin", "min")
+_red("argmax", "argmax")
+_red("argmin", "argmin")
+
+
+@both("any")
+def jnp_any(E, a, axis=None):
+    a = tt(a)
+    if not isinstance(a, Tensor):
+        return C.mk(C.as_bool(a))
+    n = T.reduce(T.elementwise(lambda v: C.ite(v, 1, 0), a, sort=INT), "sum", axis)
+    return C.compare(">", n, 0)
+
+
+@both("all")
+def jnp_all(E, a, axis=None):
+    a = tt(a)
+    if not isinstance(a, Tensor):
+        return C.mk(C.as_bool(a))
+    n = T.reduce(T.elementwise(lambda v: C.ite(v, 0, 1), a, sort=INT), "sum", axis)
+    return C.compare("==", n, 0)
+
+
+@both("cumsum")
+def jnp_cumsum(E, a, axis=None):
+    from .np_model import cumsum
+    a = T.as_tensor(tt(a))
+    if a.ndim != 1:
+        raise Unsupported("cumsum rank")
+    return cumsum(E, a)
+
+
+@both("var")
+def jnp_var(E, a, axis=None, **kw):
+    a = tt(a)
+    m = T.mean(a, axis)
+    if axis is None:
+        d = C.binop("-", a, m)
+    else:
+        d = C.binop("-", a, T.expand_dims(m, axis) if isinstance(m, Tensor) else m)
+    return T.mean(C.binop("*", d, d), axis)
+
+
+@both("std")
+def jnp_std(E, a, axis=None, **kw):
+    return T.tfn("sqrt", jnp_var(E, a, axis))
+
+
+# ---------------------------------------------------------------- shaping
+@both("concatenate")
+def jnp_concatenate(E, arrs, axis=0, **kw):
+    return T.concatenate([tt(a) for a in E.iterate(arrs)], axis)
+
+
+@both("hstack")
+def jnp_hstack(E, arrs):
+    ts = [T.as_tensor(tt(a)) for a in E.iterate(arrs)]
+    ts = [t if t.ndim else T.reshape(t, (1,)) for t in ts]
+    return T.concatenate(ts, axis=0 if ts[0].ndim == 1 else 1)
+
+
+@both("vstack")
+def jnp_vstack(E, arrs):
+    ts = [T.as_tensor(tt(a)) for a in E.iterate(arrs)]
+    ts = [t if t.ndim >= 2 else T.expand_dims(t, 0) for t in ts]
+    return T.concatenate(ts, axis=0)
+
+
+@both("stack")
+def jnp_stack(E, arrs, axis=0):
+    return T.stack([tt(a) for a in E.iterate(arrs)], axis)
+
+
+@both("expand_dims")
+def jnp_expand_dims(E, a, axis):
+    return T.expand_dims(tt(a), axis)
+
+
+@both("squeeze")
+def jnp_squeeze(E, a, axis=None):
+    return T.squeeze(tt(a), axis)
+
+
+@both("reshape")
+def jnp_reshape(E, a, shape, **kw):
+    return T.reshape(tt(a), _shape(shape))
+
+
+@both("ravel")
+def jnp_ravel(E, a):
+    return T.flatten(tt(a))
+
+
+@both("transpose")
+def jnp_transpose(E, a, axes=None):
+    return T.transpose(tt(a), axes)
+
+
+@both("permute_dims")
+def jnp_permute_dims(E, a, axes):
+    return T.transpose(tt(a), tuple(axes))
+
+
+@both("swapaxes")
+def jnp_swapaxes(E, a, a1, a2):
+    a = T.as_tensor(tt(a))
+    ax = list(range(a.ndim))
+    ax[a1], ax[a2] = ax[a2], ax[a1]
+    return T.transpose(a, tuple(ax))
+
+
+@both("atleast_2d")
+def jnp_atleast_2d(E, a):
+    a = T.as_tensor(tt(a))
+    while a.ndim < 2:
+        a = T.expand_dims(a, 0)
+    return a
+
+
+@both("atleast_1d")
+def jnp_atleast_1d(E, a):
+    a = T.as_tensor(tt(a))
+    return a if a.ndim >= 1 else T.reshape(a, (1,))
+
+
+@both("take_along_axis", doc="take_along_axis(a, idx, axis)[i,j] = a[i, idx[i,j]] for axis=1")
+def jnp_take_along_axis(E, a, idx, axis):
+    a, idx = T.as_tensor(tt(a)), T.as_tensor(tt(idx))
+    if a.ndim != idx.ndim:
+        raise T.ShapeError("take_along_axis rank mismatch")
+    if axis < 0:
+        axis += a.ndim
+    shape = T.broadcast_shapes(a.shape[:axis] + (1,) + a.shape[axis + 1:], idx.shape)
+
+    def fn(*o):
+        j = idx.at(*T._bidx(idx, len(shape), o))
+        src = list(T._bidx(Tensor(a.shape[:axis] + (1,) + a.shape[axis + 1:], None), len(shape), o))
+        src2 = [o[k] if not T.dim_is_one(a.shape[k]) else 0 for k in range(a.ndim)]
+        src2[axis] = j
+        return a.at(*src2)
+
+    return Tensor(shape, fn, a.sort, a.gdeps)
+
+
+@both("take")
+def jnp_take(E, a, idx, axis=None):
+    a = T.as_tensor(tt(a))
+    if axis in (None, 0):
+        return T.index(a, tt(idx))
+    raise Unsupported("take axis")
+
+
+@both("outer")
+def jnp_outer(E, a, b):
+    a, b = T.as_tensor(tt(a)), T.as_tensor(tt(b))
+    return Tensor((a.shape[0], b.shape[0]), lambda i, j: C.binop("*", a.at(i), b.at(j)), REAL, a.gdeps | b.gdeps)
+
+
+@both("dot")
+def jnp_dot(E, a, b):
+    return T.matmul(tt(a), tt(b))
+
+
+@both("diag")
+def jnp_diag(E, a):
+    a = T.as_tensor(tt(a))
+    if a.ndim == 1:
+        return Tensor((a.shape[0], a.shape[0]), lambda i, j: C.ite(C.compare("==", i, j), a.at(i), Fraction(0)), a.sort, a.gdeps)
+    return Tensor((a.shape[0],), lambda i: a.at(i, i), a.sort, a.gdeps)
+
+
+@both("isscalar")
+def jnp_isscalar(E, a):
+    return not isinstance(a, (Tensor, NDArr, list, tuple))
+
+
+@both("ndim")
+def jnp_ndim(E, a):
+    a = tt(a)
+    return a.ndim if isinstance(a, Tensor) else 0
+
+
+@both("shape")
+def jnp_shape(E, a):
+    a = tt(a)
+    return tuple(a.shape) if isinstance(a, Tensor) else ()
+
+
+# ------------------------------------------------------- tensor attributes
+class AtProxy:
+    def __init__(self, t):
+        self.t = t
+
+
+class AtIndexed:
+    def __init__(self, t, idx):
+        self.t = t
+        self.idx = idx
+
+
+def _tensor_attr(E, v, name):
+    if isinstance(v, AtProxy):
+        return NotImplemented
+    if isinstance(v, AtIndexed):
+        if name in ("set", "add"):
+            return Builtin(f"at.{name}", lambda E, x, **kw: T.at_set(v.t, v.idx, tt(x), name))
+        if name == "get":
+            return Builtin("at.get", lambda E, **kw: T.index(v.t, v.idx))
+        raise Unsupported(f"at[].{name}")
+    if not isinstance(v, Tensor):
+        return NotImplemented
+    if name == "shape":
+        return tuple(v.shape)
+    if name == "ndim":
+        return v.ndim
+    if name == "size":
+        return T.numel(v)
+    if name == "dtype":
+        return Opaque("dtype", str(v.sort))
+    if name == "T":
+        return T.transpose(v)
+    if name == "at":
+        return AtProxy(v)
+    if name == "real":
+        return v
+    simple = {
+        "mean": lambda E, axis=None, **kw: T.mean(v, axis),
+        "sum": lambda E, axis=None, **kw: T.reduce(v, "sum", axis),
+        "max": lambda E, axis=None, **kw: T.reduce(v, "max", axis),
+        "min": lambda E, axis=None, **kw: T.reduce(v, "min", axis),
+        "argmax": lambda E, axis=None, **kw: T.reduce(v, "argmax", axis),
+        "argmin": lambda E, axis=None, **kw: T.reduce(v, "argmin", axis),
+        "squeeze": lambda E, axis=None: T.squeeze(v, axis),
+        "reshape": lambda E, *shape, **kw: T.reshape(v, shape),
+        "flatten": lambda E: T.flatten(v),
+        "ravel": lambda E: T.flatten(v),
+        "astype": lambda E, dt=None, **kw: _astype(E, v, dt),
+        "copy": lambda E: v,
+        "item": lambda E: v.item(),
+        "transpose": lambda E, *axes: T.transpose(v, axes if axes else None),
+        "block_until_ready": lambda E: v,
+        "tolist": lambda E: _tolist(v),
+        "clip": lambda E, lo=None, hi=None: T.clip(v, lo, hi),
+        "any": lambda E, axis=None: jnp_any(E, v, axis),
+        "all": lambda E, axis=None: jnp_all(E, v, axis),
+        "std": lambda E, axis=None, **kw: jnp_std(E, v, axis),
+        "var": lambda E, axis=None, **kw: jnp_var(E, v, axis),
+        "swapaxes": lambda E, a, b: jnp_swapaxes(E, v, a, b),
+        "dot": lambda E, o: T.matmul(v, tt(o)),
+        "__len__": lambda E: v.shape[0],
+    }
+    if name in simple:
+        return Builtin(f"Tensor.{name}", simple[name])
+    return NotImplemented
+
+
+def _tolist(v):
+    if v.ndim == 0:
+        return v.at()
+    return [_tolist(x) if isinstance(x, Tensor) else x for x in v.unpack_axis0()]
+
+
+def _astype(E, v, dt):
+    from .np_model import dtype_tag
+    tag = dtype_tag(dt)
+    if tag.startswith("int") or tag == "int":
+        if v.sort == REAL:
+            return T.elementwise(lambda x: LIB.builtins["int"].fn(E, x), v, sort=INT)
+        if v.sort == BOOL:
+            return T.elementwise(lambda x: C.ite(x, 1, 0), v, sort=INT)
+        return v
+    if tag.startswith("float") or tag == "float":
+        if v.sort in (INT, BOOL):
+            return T.elementwise(lambda x: C.mk(C.as_real(x)), v, sort=REAL)
+        return v
+    if tag.startswith("bool"):
+        return T.elementwise(lambda x: C.mk(C.as_bool(x)), v, sort=BOOL)
+    return v
+
+
+LIB.value_attr_handlers.insert(0, _tensor_attr)
+
+
+def _at_getitem(E, v, idx):
+    if isinstance(v, AtProxy):
+        return AtIndexed(v.t, idx)
+    return NotImplemented
+
+
+LIB.getitem_handlers.insert(0, _at_getitem)
+
+
+# -------------------------------------------------------------------- jax
+@LIB.fn("jax.lax.stop_gradient", doc="identity on values; the result does not depend differentiably on anything")
+def stop_gradient(E, x):
+    x = tt(x)
+    if isinstance(x, Tensor):
+        return Tensor(x.shape, lambda *i: _strip(x.fn(*i)), x.sort, frozenset(), rows=x.rows)
+    if isinstance(x, Sym):
+        return Sym(x.z)
+    if isinstance(x, (tuple, list)):
+        return type(x)(stop_gradient(E, y) for y in x)
+    return x
+
+
+def _strip(v):
+    if isinstance(v, Sym):
+        return Sym(v.z)
+    return v
+
+
+def _identity_decorator(name):
+    @LIB.fn(name, doc="compilation wrapper: semantics-preserving (DESIGN 4.2)")
+    def g(E, fn=None, **kw):
+        if fn is None:
+            return Builtin(name + "()", lambda E, f: f)
+        return fn
+    return g
+
+
+_identity_decorator("jax.jit")
+_identity_decorator("jax.checkpoint")
+
+
+@LIB.fn("jax.vmap", doc="vmap(f, in_axes, out_axes=0)(xs)[i] = f(xs[i])")
+def jax_vmap(E, fn, in_axes=0, out_axes=0, **kw):
+    return Builtin("vmapped", lambda E, *a, **k: vmap_call(E, fn, in_axes, out_axes, a, k))
+
+
+def vmap_call(E, fn, in_axes, out_axes, args, kwargs):
+    args = [tt(a) for a in args]
+    if not isinstance(in_axes, (tuple, list)):
+        in_axes = [in_axes] * len(args)
+    in_axes = list(in_axes)
+    if len(in_axes) != len(args):
+        raise PyRaise("ValueError", "vmap in_axes must match the positional arguments")
+    mapped_dim = None
+    for a, ax in zip(args, in_axes):
+        if ax is None:
+            continue
+        leaves = _leaves(a)
+        for lf in leaves:
+            if not isinstance(lf, Tensor) or lf.ndim == 0:
+                raise PyRaise("ValueError", "vmap was requested to map its argument along axis 0, which implies that its rank should be at least 1")
+            axn = ax if ax >= 0 else ax + lf.ndim
+            if axn >= lf.ndim:
+                raise PyRaise("ValueError", "vmap axis out of range")
+            d = lf.shape[axn]
+            if mapped_dim is None:
+                mapped_dim = d
+            elif not T.dim_eq(mapped_dim, d):
+                raise PyRaise("ValueError", "vmap got inconsistent sizes for array axes to be mapped")
+    if mapped_dim is None:
+        raise PyRaise("ValueError", "vmap must have at least one non-None value in in_axes")
+    i = E.st.fresh(f"vm", INT)
+    E.st.assume(z3.And(i >= 0, i < T.dim_z(mapped_dim)))
+    E.st.add_pool(i)
+    sliced = []
+    for a, ax in zip(args, in_axes):
+        if ax is None:
+            sliced.append(a)
+        else:
+            sliced.append(_map_leaves(a, lambda lf: _slice_axis(lf, ax, Sym(i))))
+    out = E.call_value(fn, sliced, dict(kwargs))
+
+    def wrap(o):
+        o = tt(o)
+        if isinstance(o, (tuple, list)):
+            return type(o)(wrap(x) for x in o)
+        ot = T.as_tensor(o)
+        oa = out_axes if isinstance(out_axes, int) else 0
+        if oa < 0:
+            oa += ot.ndim + 1
+        shape = ot.shape[:oa] + (mapped_dim,) + ot.shape[oa:]
+
+        def fn2(*idx):
+            ii = idx[oa]
+            rest = idx[:oa] + idx[oa + 1:]
+            v = ot.at(*rest)
+            if isinstance(v, Sym):
+                return Sym(z3.substitute(v.z, (i, C.to_z3(ii))), v.gdeps)
+            return v
+
+        rows = None
+        if ot.rows is not None and oa == 0:
+            def rows(*b):
+                r = ot.rows(*b[1:])
+                return z3.substitute(r, (i, C.to_z3(b[0])))
+        return Tensor(shape, fn2, ot.sort, ot.gdeps, rows=rows)
+
+    return wrap(out)
+
+
+def _leaves(a):
+    if isinstance(a, (tuple, list)):
+        out = []
+        for x in a:
+            out.extend(_leaves(x))
+        return out
+    if isinstance(a, dict):
+        out = []
+        for x in a.values():
+            out.extend(_leaves(x))
+        return out
+    return [a]
+
+
+def _map_leaves(a, f):
+    if isinstance(a, (tuple, list)):
+        return type(a)(_map_leaves(x, f) for x in a)
+    if isinstance(a, dict):
+        return {k: _map_leaves(x, f) for k, x in a.items()}
+    return f(a)
+
+
+def _slice_axis(t, ax, i):
+    idx = [slice(None)] * t.ndim
+    idx[ax] = i
+    return T.index(t, tuple(idx))
+
+
+# ------------------------------------------------------------- jax.random
+split_l = C.uf("key_split", KEY, INT, KEY)
+
+
+@LIB.fn("jax.random.key", doc="key determined by the seed")
+def jr_key(E, seed):
+    f = C.uf("key_of_seed", INT, KEY)
+    if isinstance(seed, Sym) and seed.z.sort() != INT:
+        raise Unsupported("non-integer seed")
+    return Sym(f(C.to_z3(seed)))
+
+
+@LIB.fn("jax.random.split", doc="split(key, n): n keys, each a function of (key, position)")
+def jr_split(E, key, num=2):
+    if not isinstance(num, int):
+        kz = key.z
+        return Tensor((num,), lambda i: Sym(split_l(kz, C.to_z3(i))), KEY)
+    return tuple(Sym(split_l(key.z, z3.IntVal(i))) for i in range(num))
+
+
+@LIB.fn("jax.random.fold_in")
+def jr_fold_in(E, key, data):
+    return Sym(split_l(key.z, C.as_int(data)))
+
+
+def _rand(name, lo=None, hi=None, lo_strict=False, hi_strict=False):
+    def g(E, key, shape=(), *a, **kw):
+        shape = _shape(shape) if shape != () else ()
+        kz = key.z if isinstance(key, Sym) else None
+        if kz is None:
+            raise Unsupported("random draw without a key term")
+        k = len(shape)
+        f = C.uf(f"rand_{name}{k}", *([KEY] + [INT] * k + [REAL]))
+
+        def fn(*i):
+            v = f(kz, *[C.to_z3(x) for x in i])
+            return Sym(v)
+
+        t = Tensor(shape, fn, REAL)
+        cons = []
+        def rng(*i):
+            v = f(kz, *[C.to_z3(x) for x in i])
+            cs = []
+            if lo is not None:
+                cs.append(v > lo if lo_strict else v >= lo)
+            if hi is not None:
+                cs.append(v < hi if hi_strict else v <= hi)
+            return z3.And(*cs) if cs else z3.BoolVal(True)
+        if lo is not None or hi is not None:
+            if k:
+                E.st.assume_forall([INT] * k, rng, f"{name}.range")
+            else:
+                E.st.assume(rng())
+        return T.unwrap0(t)
+    return g
+
+
+LIB.fn("jax.random.normal", doc="normal(key, shape): function of (key, index)")(_rand("normal"))
+LIB.fn("jax.random.uniform", doc="uniform(key, shape) in [0,1)")(lambda E, key, shape=(), dtype=None, minval=0, maxval=1, **kw: _uniform(E, key, shape, minval, maxval))
+
+
+def _uniform(E, key, shape, lo, hi):
+    u = _rand("uniform", 0, 1, hi_strict=True)(E, key, shape)
+    if lo == 0 and hi == 1:
+        return u
+    return C.binop("+", lo, C.binop("*", u, C.binop("-", hi, lo)))
+
+
+@LIB.fn("jax.random.truncated_normal", doc="truncated_normal(key, lower, upper, shape) in [lower, upper]")
+def jr_truncnorm(E, key, lower, upper, shape=(), **kw):
+    if isinstance(lower, (Tensor,)) or isinstance(upper, Tensor):
+        raise Unsupported("tensor truncation bounds")
+    return _rand("truncnorm", C.as_real(lower), C.as_real(upper))(E, key, shape)
+
+
+@LIB.fn("jax.random.randint")
+def jr_randint(E, key, shape, minval, maxval, **kw):
+    shape = _shape(shape)
+    k = len(shape)
+    f = C.uf(f"rand_int{k}", *([KEY] + [INT] * k + [INT]))
+    kz = key.z
+    t = Tensor(shape, lambda *i: Sym(f(kz, *[C.to_z3(x) for x in i])), INT)
+    rng = lambda *i: z3.And(f(kz, *i) >= C.as_int(minval), f(kz, *i) < C.as_int(maxval))  # noqa: E731
+    if k:
+        E.st.assume_forall([INT] * k, rng, "randint.range")
+    else:
+        E.st.assume(rng())
+    return T.unwrap0(t)
+
+
+@LIB.fn("jax.random.choice", doc="choice(key, a): an element of a, function of (key, a)")
+def jr_choice(E, key, a, shape=(), **kw):
+    a = tt(a)
+    if isinstance(a, (int, Sym)):
+        n = a
+        f = C.uf("rand_choice", KEY, INT, INT)
+        r = Sym(f(key.z, C.as_int(n)))
+        E.assume(C.band(r >= 0, r < n))
+        return r
+    a = T.as_tensor(a)
+    n = a.shape[0]
+    f = C.uf("rand_choice", KEY, INT, INT)
+    r = Sym(f(key.z, T.dim_z(n)))
+    E.assume(C.band(r >= 0, C.compare("<", r, n)))
+    return T.index(a, r)
+
+
+@LIB.fn("jax.random.categorical")
+def jr_categorical(E, key, logits, axis=-1, **kw):
+    lg = T.as_tensor(tt(logits))
+    if lg.ndim != 1:
+        raise Unsupported("categorical rank")
+    f = C.uf("rand_cat", KEY, INT)
+    r = Sym(f(key.z))
+    E.assume(C.band(r >= 0, C.compare("<", r, lg.shape[0])))
+    return r
+
+
+@LIB.fn("jax.random.permutation")
+def jr_permutation(E, key, x, **kw):
+    raise Unsupported("jax.random.permutation")
+
+
+# ------------------------------------------------------------------ jax.nn
+@LIB.fn("jax.nn.softplus")
+def nn_softplus(E, x):
+    return T.tfn("softplus", tt(x))
+
+
+@LIB.fn("jax.nn.sigmoid")
+def nn_sigmoid(E, x):
+    return T.tfn("sigmoid", tt(x))
+
+
+@LIB.fn("jax.nn.relu")
+def nn_relu(E, x):
+    return T.tmax(tt(x), 0)
+
+
+@LIB.fn("jax.nn.tanh")
+def nn_tanh(E, x):
+    return T.tfn("tanh", tt(x))
+
+
+LIB.funcs["flax.nnx.relu"] = LIB.funcs["jax.nn.relu"]
+LIB.funcs["flax.nnx.tanh"] = LIB.funcs["jax.nn.tanh"]
+LIB.funcs["flax.nnx.sigmoid"] = LIB.funcs["jax.nn.sigmoid"]
+LIB.funcs["flax.nnx.softplus"] = LIB.funcs["jax.nn.softplus"]
+
+
+def softmax_last(E, x, log=False):
+    """softmax over the last axis: p = exp(x - lse); log p = x - lse.
+    lse is an uninterpreted function of the row (Sum node of exp) - the two
+    facts used by the proofs (p >= 0, sum p == 1) are the assumed contract."""
+    x = T.as_tensor(tt(x))
+    if x.ndim == 0:
+        raise Unsupported("softmax of scalar")
+    ex = T.tfn("exp", x)
+    s = T.reduce_axis(ex, x.ndim - 1, "sum")
+    st = E.st
+    if isinstance(s, Tensor):
+        sb = T.expand_dims(s, -1)
+    else:
+        sb = s
+    p = C.binop("/", ex, sb)
+    if log:
+        lse = T.tfn("log", s)
+        lseb = T.expand_dims(lse, -1) if isinstance(lse, Tensor) else lse
+        return C.binop("-", x, lseb)
+    return p
+
+
+@LIB.fn("jax.nn.softmax", doc="softmax(x)_k = exp(x_k)/sum_j exp(x_j)")
+def nn_softmax(E, x, axis=-1):
+    if axis != -1:
+        raise Unsupported("softmax axis")
+    return softmax_last(E, x)
+
+
+@LIB.fn("jax.nn.log_softmax", doc="log_softmax(x)_k = x_k - log sum_j exp(x_j)")
+def nn_log_softmax(E, x, axis=-1):
+    if axis != -1:
+        raise Unsupported("log_softmax axis")
+    return softmax_last(E, x, log=True)
+
+
+LIB.funcs["flax.nnx.softmax"] = LIB.funcs["jax.nn.softmax"]
+LIB.funcs["flax.nnx.log_softmax"] = LIB.funcs["jax.nn.log_softmax"]
+
+
+@LIB.fn("jax.nn.one_hot")
+def nn_one_hot(E, x, num_classes, **kw):
+    x = T.as_tensor(tt(x))
+    return Tensor(x.shape + (num_classes,), lambda *i: C.ite(C.compare("==", x.at(*i[:-1]), i[-1]), Fraction(1), Fraction(0)), REAL)
+
+
+# --------------------------------------------------------------- jax.tree
+@LIB.fn("jax.tree.map")
+def tree_map(E, f, tree, *rest):
+    def rec(t, rs):
+        if isinstance(t, dict):
+            return {k: rec(v, [r[k] for r in rs]) for k, v in t.items()}
+        if isinstance(t, (list, tuple)):
+            return type(t)(rec(v, [r[i] for r in rs]) for i, v in enumerate(t))
+        h = LIB.tree_map_hook(E, f, t, rs) if hasattr(LIB, "tree_map_hook") else NotImplemented
+        if h is not NotImplemented:
+            return h
+        return E.call_value(f, [t] + rs, {})
+    return rec(tree, list(rest))
+
+
+LIB.funcs["jax.tree_util.tree_map"] = LIB.funcs["jax.tree.map"]
+LIB.funcs["jax.tree_map"] = LIB.funcs["jax.tree.map"]
+
+
+# ------------------------------------------------------------------ optax
+@LIB.fn("optax.squared_error", doc="optax.squared_error(p, t) = (p - t)^2 elementwise")
+def optax_sq(E, predictions, targets=None):
+    d = predictions if targets is None else C.binop("-", tt(predictions), tt(targets))
+    if targets is not None:
+        _same_shape_or_raise(predictions, targets)
+    return C.binop("*", d, d)
+
+
+def _same_shape_or_raise(a, b):
+    a, b = tt(a), tt(b)
+    if isinstance(a, Tensor) and isinstance(b, Tensor):
+        if a.ndim != b.ndim or not all(T.dim_eq(x, y) for x, y in zip(a.shape, b.shape)):
+            # optax.squared_error: chex.assert_equal_shape on (predictions, targets)
+            raise T.ShapeError(f"optax: predictions {a.shape} and targets {b.shape} must have equal shapes")
+
+
+@LIB.fn("optax.l2_loss", doc="optax.l2_loss(p, t) = 0.5 (p - t)^2")
+def optax_l2(E, predictions, targets=None):
+    return C.binop("*", Fraction(1, 2), optax_sq(E, predictions, targets))
+
+
+@LIB.fn("optax.huber_loss", doc="optax.huber_loss(p, t, delta)")
+def optax_huber(E, predictions, targets=None, delta=1):
+    d = predictions if targets is None else C.binop("-", tt(predictions), tt(targets))
+    a = T.tabs(d) if isinstance(d, Tensor) else C.sabs(d)
+    q = T.tmin(a, delta) if isinstance(a, Tensor) else C.smin(a, delta)
+    lin = C.binop("-", a, q)
+    return C.binop("+", C.binop("*", Fraction(1, 2), C.binop("*", q, q)), C.binop("*", delta, lin))
+
+
+@LIB.fn("optax.softmax_cross_entropy", doc="-sum(labels * log_softmax(logits), axis=-1)")
+def optax_sce(E, logits, labels):
+    ls = softmax_last(E, logits, log=True)
+    return C.unop("-", T.reduce(C.binop("*", tt(labels), ls), "sum", -1))
+
+
+# ------------------------------------------------------------------- chex
+@LIB.fn("chex.assert_equal_shape", doc="raises unless all arrays have equal shapes")
+def chex_equal_shape(E, arrs, **kw):
+    ts = [T.as_tensor(tt(a)) for a in E.iterate(arrs)]
+    for t in ts[1:]:
+        if t.ndim != ts[0].ndim or not all(T.dim_eq(a, b) for a, b in zip(t.shape, ts[0].shape)):
+            raise PyRaise("AssertionError", f"chex.assert_equal_shape {[x.shape for x in ts]}")
+
+
+@LIB.fn("chex.assert_equal_shape_prefix", doc="raises unless leading prefix_len dims agree")
+def chex_equal_prefix(E, arrs, prefix_len, **kw):
+    ts = [T.as_tensor(tt(a)) for a in E.iterate(arrs)]
+    for t in ts:
+        if t.ndim < prefix_len:
+            raise PyRaise("AssertionError", "chex.assert_equal_shape_prefix: rank too small")
+    for t in ts[1:]:
+        if not all(T.dim_eq(a, b) for a, b in zip(t.shape[:prefix_len], ts[0].shape[:prefix_len])):
+            raise PyRaise("AssertionError", f"chex.assert_equal_shape_prefix {[x.shape for x in ts]}")
+
+
+@LIB.fn("chex.assert_shape")
+def chex_shape(E, arr, shape, **kw):
+    t = T.as_tensor(tt(arr))
+    shape = tuple(shape)
+    if len(shape) != t.ndim:
+        raise PyRaise("AssertionError", f"chex.assert_shape rank {t.shape} vs {shape}")
+    for a, b in zip(t.shape, shape):
+        if b is None or (isinstance(b, Opaque) and b.tag == "Ellipsis"):
+            continue
+        if not T.dim_eq(a, T.norm_dim(b)):
+            raise PyRaise("AssertionError", f"chex.assert_shape {t.shape} vs {shape}")
+
+
+@LIB.fn("chex.assert_rank")
+def chex_rank(E, arr, rank, **kw):
+    arrs = arr if isinstance(arr, (list, tuple)) else [arr]
+    for a in arrs:
+        t = T.as_tensor(tt(a))
+        ok = t.ndim in rank if isinstance(rank, (set, list, tuple)) else t.ndim == rank
+        if not ok:
+            raise PyRaise("AssertionError", f"chex.assert_rank {t.shape} vs {rank}")
+
+
+@LIB.fn("chex.assert_scalar_in", doc="raises unless lo <= x <= hi")
+def chex_scalar_in(E, x, lo, hi, included=True):
+    ok = C.band(C.compare(">=", x, lo), C.compare("<=", x, hi))
+    if not E.truth(ok):
+        raise PyRaise("AssertionError", "chex.assert_scalar_in")
+
+
+@LIB.fn("chex.assert_scalar_positive")
+def chex_scalar_pos(E, x):
+    if not E.truth(C.compare(">", x, 0)):
+        raise PyRaise("AssertionError", "chex.assert_scalar_positive")
+
+
+@LIB.fn("chex.assert_scalar_non_negative")
+def chex_scalar_nn(E, x):
+    if not E.truth(C.compare(">=", x, 0)):
+        raise PyRaise("AssertionError", "chex.assert_scalar_non_negative")
+
+
+@LIB.fn("chex.assert_axis_dimension")
+def chex_axis_dim(E, arr, axis, expected):
+    t = T.as_tensor(tt(arr))
+    if not T.dim_eq(t.shape[axis], T.norm_dim(expected)):
+        raise PyRaise("AssertionError", "chex.assert_axis_dimension")
+
+
+@LIB.fn("chex.assert_tree_all_finite")
+def chex_finite(E, *a, **k):
+    return None
